@@ -179,7 +179,8 @@ func (g *genState) opName() string {
 
 // placement of a root relative to the window
 const (
-	plIn = iota
+	plRecent = iota // the whole trace within the last minutes (what the 5-minute RED job sees whatever the event-time rule)
+	plIn
 	plBefore
 	plStraddleStart
 	plAfter
@@ -198,6 +199,9 @@ func (g *genState) genTrace(n, nsvc int, backNs, fwdNs int64, placement int) []*
 	g.vid++
 	// root times
 	switch placement {
+	case plRecent:
+		root.StartOff = rapid.Int64Range(-150*nsPerSec, -40*nsPerSec).Draw(t, "rootStart")
+		root.Dur = g.duration(-35*nsPerSec-root.StartOff, "rootDur")
 	case plIn:
 		maxDur := backNs - 2*marginNs - nsPerSec
 		root.Dur = g.duration(maxDur, "rootDur")
@@ -273,6 +277,23 @@ func (g *genState) genTrace(n, nsvc int, backNs, fwdNs int64, placement int) []*
 			elig = append(elig, i)
 		}
 	}
+	// Traces meant to lie inside the window keep every span start inside it, whichever instant the
+	// server takes as a span's event time (skew chains could otherwise carry a descendant across an
+	// edge); a span that would leave is moved to the root's start.
+	var lo, hi int64
+	switch placement {
+	case plRecent:
+		lo, hi = -200*nsPerSec, -5*nsPerSec
+	case plIn, plFutureIn:
+		lo, hi = -backNs+10*nsPerSec, fwdNs-10*nsPerSec
+	default:
+		return spans
+	}
+	for _, s := range spans[1:] {
+		if s.StartOff < lo || s.StartOff > hi {
+			s.StartOff = root.StartOff
+		}
+	}
 	return spans
 }
 
@@ -316,14 +337,16 @@ func genCase(t *rapid.T) *Case {
 	// ---- traces ---------------------------------------------------------------------------
 	var traces [][]*Span
 	placement := func() int {
-		switch uniform(t, "placement", 20) {
-		case 16:
+		switch u := uniform(t, "placement", 20); {
+		case u <= 8:
+			return plRecent
+		case u == 16:
 			return plBefore
-		case 17:
+		case u == 17:
 			return plStraddleStart
-		case 18:
+		case u == 18:
 			return plAfter
-		case 19:
+		case u == 19:
 			return plFutureIn
 		}
 		return plIn
@@ -390,7 +413,7 @@ func genCase(t *rapid.T) *Case {
 	case "big_trace":
 		// one trace larger than one gantt page (1 000 spans) plus a few small ones
 		n := rapid.IntRange(1001, 1300).Draw(t, "bigTraceSize")
-		traces = append(traces, g.genTrace(n, nsvc, backNs, fwdNs, plIn))
+		traces = append(traces, g.genTrace(n, nsvc, backNs, fwdNs, rapid.SampledFrom([]int{plRecent, plIn}).Draw(t, "bigPlacement")))
 		for i := rapid.IntRange(0, 3).Draw(t, "extraTraces"); i > 0; i-- {
 			traces = append(traces, g.genTrace(rapid.IntRange(1, 6).Draw(t, "traceSize"), nsvc, backNs, fwdNs, placement()))
 		}
